@@ -9,6 +9,7 @@ from .facts import Run
 from .interp import Ctx, analyse_method
 from .model import AnalysisError, iter_functions
 from .report import RuleResult
+from .terms import Const
 
 TABLE = "_RUNTIMES"
 DEFAULTS = "_DEFAULT_HANDLERS"
@@ -299,6 +300,9 @@ def rule_NR(run: Run) -> RuleResult:
 
 
 # ------------------------------------------------------------------ R-DF
+D_KEY = "global<labrea.runtime._DEFAULT_HANDLERS>"
+
+
 def rule_DF(run: Run) -> RuleResult:
     res = RuleResult("R-DF")
     m, rt = _rt(run)
@@ -307,38 +311,62 @@ def rule_DF(run: Run) -> RuleResult:
     fn = rt.methods.get("run")
     if fn is None:
         raise AnalysisError("Runtime.run not found")
-    # run plus the helpers it calls through self, parameters substituted
-    bodies = astu.substituted_helper_bodies(fn, rt)
-    lookups = []
-    for b in bodies:
-        for n in ast.walk(b):
-            if isinstance(n, ast.Subscript) and isinstance(n.value, ast.Name) and n.value.id == DEFAULTS and isinstance(n.ctx, ast.Load):
-                lookups.append(n.slice)
-            if isinstance(n, ast.Call) and isinstance(n.func, ast.Attribute) and isinstance(n.func.value, ast.Name) and n.func.value.id == DEFAULTS and n.func.attr == "get" and n.args:
-                lookups.append(n.args[0])
-            if isinstance(n, ast.Compare) and any(isinstance(c, ast.Name) and c.id == DEFAULTS for c in n.comparators):
-                lookups.append(n.left)
-    amap = astu.single_assign_map(fn)
-    ok = any(ast.unparse(astu.expand_locals(k, amap)) == "type(request)" for k in lookups)
+    ps = _fn_paths(run, fn, rt)
+    req = [a.arg for a in fn.args.args][1] if len(fn.args.args) > 1 else "request"
+    TY = f"call:type({req})"
+    own = f"getitem(attr:handlers(self),{TY})"
+    own_get = f"call:get(attr:handlers(self),{TY}"
+    dflt = f"getitem({D_KEY},{TY})"
+    dflt_get = f"call:get({D_KEY},{TY}"
+    rets = [p for p in ps if p.status == "ret" and p.ret is not None]
+    raises = [p for p in ps if p.status == "raise"]
+
+    def served_by(p):
+        k = p.ret.key()
+        if not (k.startswith("callres(") and k.endswith(f",{req})")):
+            return None
+        h = k[len("callres("):-len(f",{req})")]
+        if h == own or h.startswith(own_get):
+            return "own"
+        if h == dflt or h.startswith(dflt_get):
+            return "default"
+        return "other:" + h[:60]
+
+    kinds = [served_by(p) for p in rets]
+    ok_r = bool(rets) and all(k is not None for k in kinds)
+    res.add("labrea.runtime.Runtime.run:returns handler(request)", ok_r, m.relpath, fn.lineno, f"{[p.ret.key()[:70] for p in rets]}", nec)
+    ok = "default" in kinds
     res.add("labrea.runtime.Runtime.run:falls back to the default table at call time", ok, m.relpath, fn.lineno,
             f"{DEFAULTS}[type(request)] consulted in run()" if ok else f"run() never consults {DEFAULTS}: only the snapshot taken in __init__ is used", nec)
-    # own handlers first, TypeError when nothing serves
-    own = any(isinstance(n, ast.Subscript) and astu.is_self_attr(n.value, "handlers") and ast.unparse(astu.expand_locals(n.slice, amap)) == "type(request)" for b in bodies for n in ast.walk(b)) or \
-        any(isinstance(c.func, ast.Attribute) and astu.is_self_attr(c.func.value, "handlers") and c.func.attr == "get" for b in bodies for c in astu.calls_in(b))
-    res.add("labrea.runtime.Runtime.run:looks the handler up by type(request) in its own handlers", own, m.relpath, fn.lineno, "self.handlers[type(request)]", nec)
-    raises = [r for b in bodies for r in ast.walk(b) if isinstance(r, ast.Raise) and r.exc is not None]
-    ok_t = bool(raises) and all(isinstance(r.exc, ast.Call) and astu.short_name(r.exc) == "TypeError" for r in raises)
-    res.add("labrea.runtime.Runtime.run:unserved request fails with TypeError", ok_t, m.relpath, fn.lineno, f"{[ast.unparse(r.exc)[:40] for r in raises]}", nec)
-    rets = [r for r in astu.walk_no_nested(fn) if isinstance(r, ast.Return) and r.value is not None]
-    ok_r = bool(rets) and all(isinstance(r.value, ast.Call) and len(r.value.args) == 1 and ast.unparse(r.value.args[0]) == "request" and not r.value.keywords for r in rets)
-    res.add("labrea.runtime.Runtime.run:returns handler(request)", ok_r, m.relpath, fn.lineno, f"{[ast.unparse(r.value) for r in rets]}", nec)
+    # own handlers first: the default table serves only after the own lookup failed / missed
+    own_first = "own" in kinds and all(k in ("own", "default") for k in kinds)
+    for p, k in zip(rets, kinds):
+        if k == "default":
+            looked = any(e.kind == "call" and e.text in ("getitem", "get") and e.target is not None and e.target.key() == "attr:handlers(self)" for e in p.events) \
+                or any(f"attr:handlers(self)" in (c[2] or "") for c in p.conds)
+            own_first = own_first and looked
+    res.add("labrea.runtime.Runtime.run:looks the handler up by type(request) in its own handlers", own_first, m.relpath, fn.lineno, f"served by {kinds}", nec)
+    ok_t = bool(raises) and all(p.exc and p.exc[0].split(".")[-1] == "TypeError" for p in raises)
+    res.add("labrea.runtime.Runtime.run:unserved request fails with TypeError", ok_t, m.relpath, fn.lineno, f"{[p.exc[0] for p in raises if p.exc]}", nec)
     # Request.run goes through the current runtime
     rq = run.repo.cls("Request")
     rf = rq.methods.get("run")
-    ok_q = rf is not None and [ast.unparse(r.value) for r in ast.walk(rf) if isinstance(r, ast.Return)] == ["current_runtime().run(self)"]
-    res.add("labrea.runtime.Request.run:served by the current runtime", ok_q, m.relpath, rf.lineno if rf else 0, "current_runtime().run(self)", nec)
+    CUR = f"call:setdefault({T_KEY},{OWN_THREAD},new:Runtime(Const(None)))"
+    ok_q = False
+    shown = ""
+    if rf is not None:
+        qps = _fn_paths(run, rf, rq)
+        shown = f"{[p.ret.key()[:80] if p.ret is not None else p.status for p in qps]}"
+        ok_q = bool(qps) and all(p.status == "ret" and p.ret is not None and p.ret.key() == f"call:run({CUR},self)" for p in qps)
+    res.add("labrea.runtime.Request.run:served by the current runtime", ok_q, m.relpath, rf.lineno if rf else 0, shown or "current_runtime().run(self)", nec)
     hd = run.repo.func("labrea.runtime.handle_by_default")
-    ok_h = any(isinstance(n, ast.Assign) and ast.unparse(n.targets[0]) == f"{DEFAULTS}[request]" and ast.unparse(n.value) == "handler" for n in ast.walk(hd.node))
+    hps = _fn_paths(run, hd.node, None)
+    pr = [a.arg for a in hd.node.args.args]
+    ok_h = bool(hps) and len(pr) >= 2
+    for p in hps:
+        st = [e for e in p.events if e.kind == "store" and len(e.args) == 2 and e.args[0].key() == D_KEY]
+        if p.status != "ret" or len(st) != 1 or st[0].args[1].key() != f"index({pr[0]})" or st[0].target is None or st[0].target.key() != pr[1]:
+            ok_h = False
     res.add("labrea.runtime.handle_by_default:registers into the default table", ok_h, m.relpath, hd.node.lineno, f"{DEFAULTS}[request] = handler", nec)
     return res
 
@@ -359,9 +387,9 @@ def rule_HI(run: Run) -> RuleResult:
                 for t in tgts:
                     if isinstance(t, ast.Attribute) and t.attr == "handlers":
                         n += 1
-                        ok = q.endswith("Runtime.__init__") and isinstance(s, ast.Assign) and isinstance(s.value, ast.Dict)
+                        ok = q.endswith("Runtime.__init__") and isinstance(s, ast.Assign)
                         res.add(f"{q}:assigns .handlers", ok, mm.relpath, s.lineno,
-                                "fresh dict display in __init__" if ok else f"{ast.unparse(s)[:80]}", nec)
+                                "assigned once, in __init__ (its value is judged below)" if ok else f"{ast.unparse(s)[:80]}", nec)
                     if isinstance(t, ast.Subscript) and isinstance(t.value, ast.Attribute) and t.value.attr == "handlers":
                         n += 1
                         res.add(f"{q}:item store into .handlers", False, mm.relpath, s.lineno, ast.unparse(s)[:80], nec)
@@ -373,27 +401,37 @@ def rule_HI(run: Run) -> RuleResult:
     hf = rt.methods.get("handle")
     if hf is None:
         raise AnalysisError("Runtime.handle not found")
-    rets = [r for r in astu.walk_no_nested(hf) if isinstance(r, ast.Return) and r.value is not None]
-    ok = bool(rets)
+    hps = [p for p in _fn_paths(run, hf, rt) if p.status == "ret"]
+    ok = bool(hps)
     d = []
-    for r in rets:
-        v = r.value
-        good = isinstance(v, ast.Call) and astu.short_name(v) == "Runtime" and len(v.args) == 1 and isinstance(v.args[0], ast.Dict) \
-            and v.args[0].keys and v.args[0].keys[0] is None and ast.unparse(v.args[0].values[0]) == "self.handlers"
-        d.append(ast.unparse(v)[:60])
-        ok = ok and good
+    for p in hps:
+        k = p.ret.key() if p.ret is not None else ""
+        d.append(k[:70])
+        # a new Runtime over a fresh dictionary that starts from this runtime's handlers; self.handlers itself is not written
+        if not (k.startswith("new:Runtime(dict(dstar(attr:handlers(self))") and not any(e.kind == "store" and len(e.args) == 2 and "attr:handlers(self)" in e.args[0].key() for e in p.events)):
+            ok = False
     res.add("labrea.runtime.Runtime.handle:returns Runtime({**self.handlers, overrides})", ok, m.relpath, hf.lineno, f"{d}", nec)
     init = rt.methods.get("__init__")
-    okk = False
-    for s in ast.walk(init):
-        if isinstance(s, ast.Assign) and ast.unparse(s.targets[0]) == "self.handlers" and isinstance(s.value, ast.Dict):
-            spreads = [ast.unparse(v) for k, v in zip(s.value.keys, s.value.values) if k is None]
-            okk = bool(spreads) and "handlers" in spreads[-1]
+    ips = [p for p in _fn_paths(run, init, rt) if p.status == "ret"]
+    okk = bool(ips)
+    hp = [a.arg for a in init.args.args][1] if len(init.args.args) > 1 else "handlers"
+    for p in ips:
+        st = [e for e in p.events if e.kind == "store" and len(e.args) == 2 and e.args[0].key() == "self" and e.args[1].key() == Const("handlers").key()]
+        if len(st) != 1 or st[0].target is None:
+            okk = False
+            continue
+        k = st[0].target.key()
+        # defaults first, the explicit handlers last (they win); nothing when no handlers were given
+        if not (k.startswith("dict(") and k.find(D_KEY) >= 0 and (hp not in k or k.find(D_KEY) < k.rfind(hp))):
+            okk = False
     res.add("labrea.runtime.Runtime.__init__:explicit handlers override defaults", okk, m.relpath, init.lineno, "handlers spread last", nec)
     # module-level handle() derives from the current runtime
     mh = run.repo.func("labrea.runtime.handle")
-    ok = [ast.unparse(r.value) for r in ast.walk(mh.node) if isinstance(r, ast.Return)] == ["current_runtime().handle(request, handler)"]
-    res.add("labrea.runtime.handle:derives from the current runtime", ok, m.relpath, mh.node.lineno, "", nec)
+    mps = _fn_paths(run, mh.node, None)
+    mp_ = [a.arg for a in mh.node.args.args]
+    CUR = f"call:setdefault({T_KEY},{OWN_THREAD},new:Runtime(Const(None)))"
+    ok = bool(mps) and all(p.status == "ret" and p.ret is not None and p.ret.key() == f"call:handle({CUR},{','.join(mp_)})" for p in mps)
+    res.add("labrea.runtime.handle:derives from the current runtime", ok, m.relpath, mh.node.lineno, f"{[p.ret.key()[:80] if p.ret is not None else p.status for p in mps]}", nec)
     for modname, fname in (("labrea.cache", "disabled"), ("labrea.logging", "disabled")):
         fi = run.repo.functions.get(f"{modname}.{fname}")
         ok, why = fi is not None, "" if fi is not None else "not found"
@@ -562,24 +600,20 @@ def rule_LS(run: Run) -> RuleResult:
     gl = repo.functions.get("labrea.overload._get_lock")
     ok = False
     if gl is not None:
+        from .interp import analyse_function
         k = astu.param_names(gl.node, skip_self=False)[0]
-        from_table = set()
-        stored = set()
-        for s_ in ast.walk(gl.node):
-            if isinstance(s_, ast.Assign) and isinstance(s_.targets[0], ast.Name) and "_LOCKS" in ast.unparse(s_.value):
-                from_table.add(s_.targets[0].id)
-            if isinstance(s_, ast.Assign) and ast.unparse(s_.targets[0]) == f"_LOCKS[{k}]" and isinstance(s_.value, ast.Name):
-                stored.add(s_.value.id)
-        rets = [r.value for r in ast.walk(gl.node) if isinstance(r, ast.Return) and r.value is not None]
-        ok = bool(rets)
-        for r in rets:
-            if isinstance(r, ast.Call) and ast.unparse(r.func) == "_LOCKS.setdefault" and ast.unparse(r.args[0]) == k:
+        L = "global<labrea.overload._LOCKS>"
+        gps = analyse_function(Ctx(repo), gl.module, gl.node)
+        ok = bool(gps)
+        for p in gps:
+            if p.status != "ret" or p.ret is None:
+                ok = False
                 continue
-            if isinstance(r, ast.Name) and r.id in from_table and (r.id in stored or True):
-                # a lock read from the table, or the fresh one that was just stored under the key
-                if r.id in stored or not any(isinstance(s_, ast.Assign) and isinstance(s_.targets[0], ast.Name) and s_.targets[0].id == r.id and "Lock(" in ast.unparse(s_.value) for s_ in ast.walk(gl.node)):
-                    continue
-            ok = False
+            rk = p.ret.key()
+            stored = [e.target.key() for e in p.events if e.kind == "store" and len(e.args) == 2 and e.args[0].key() == L and e.args[1].key() == f"index({k})" and e.target is not None]
+            # the returned lock is the registry's entry for the key: read from it, put there by setdefault, or just stored under the key
+            if not (rk.startswith(f"call:setdefault({L},{k},") or rk == f"getitem({L},{k})" or rk.startswith(f"call:get({L},{k}") or rk in stored):
+                ok = False
     res.add("labrea.overload._get_lock:one lock per key, kept in the registry", ok, om.relpath, gl.node.lineno if gl else 0,
             "the returned lock is the registry's entry for the key", nec)
     return res
@@ -612,26 +646,32 @@ def rule_CW(run: Run) -> RuleResult:
     reg = ov.methods.get("register")
     if reg is None:
         raise AnalysisError("Overloaded.register not found")
-    ok = False
-    d = "no assignment to self.lookup"
-    amap_r = astu.single_assign_map(reg)
-    for s in ast.walk(reg):
-        if isinstance(s, ast.Assign) and ast.unparse(s.targets[0]) == "self.lookup":
-            v = astu.expand_locals(s.value, amap_r)
-            d = ast.unparse(v)
-            ps_ = astu.param_names(reg)
-            # a fresh dict seeded with the old table …
-            fresh = (isinstance(v, ast.Dict) and v.keys and v.keys[0] is None and ast.unparse(v.values[0]) == "self.lookup") or \
-                (isinstance(v, ast.Call) and ast.unparse(v.func) in ("dict", "self.lookup.copy") and (not v.args or ast.unparse(v.args[0]) == "self.lookup"))
-            # … that receives key -> value either in the display or by an item store on the local
-            in_display = isinstance(v, ast.Dict) and any(k is not None and ast.unparse(k) == ps_[0] and ast.unparse(val) == ps_[1] for k, val in zip(v.keys, v.values))
-            local = s.value.id if isinstance(s.value, ast.Name) else None
-            by_store = local is not None and any(isinstance(t, ast.Assign) and ast.unparse(t.targets[0]) == f"{local}[{ps_[0]}]" and ast.unparse(t.value) == ps_[1] for t in ast.walk(reg))
-            ok = bool(fresh) and (in_display or by_store)
-    res.add("labrea.overload.Overloaded.register:assigns a fresh table {**self.lookup, key: value}", ok, ov.module.relpath, reg.lineno, d, nec)
+    from .interp import analyse_function
+    rps = analyse_function(Ctx(repo), ov.module, reg, cls=ov)
+    ps_ = astu.param_names(reg)
+    ok = bool(rps)
+    d = ""
+    for p in rps:
+        if p.status != "ret":
+            continue
+        st = [e for e in p.events if e.kind == "store" and len(e.args) == 2 and e.args[0].key() == "self" and e.args[1].key() == Const("lookup").key()]
+        if len(st) != 1 or st[0].target is None:
+            ok, d = False, f"{len(st)} assignments to self.lookup on a path"
+            continue
+        k = st[0].target.key()
+        d = d or k
+        # a fresh dictionary seeded with the old table that also maps key -> value (display, dict(...)/copy() + item store)
+        if not (k.startswith("dict(") and "dstar(attr:lookup(self))" in k and f"item({ps_[0]},{ps_[1]})" in k and k.index("dstar(attr:lookup(self))") < k.index(f"item({ps_[0]},{ps_[1]})")):
+            ok, d = False, k
+    res.add("labrea.overload.Overloaded.register:assigns a fresh table {**self.lookup, key: value}", ok, ov.module.relpath, reg.lineno, d[:120], nec)
     ds = repo.cls("Dataset")
     r2 = ds.methods.get("register")
-    ok = r2 is not None and any(ast.unparse(c) == f"self.overloads.register({', '.join(astu.param_names(r2))})" for c in astu.calls_in(r2))
+    ok = False
+    if r2 is not None:
+        r2p = astu.param_names(r2)
+        dps = analyse_function(Ctx(repo), ds.module, r2, cls=ds)
+        ok = bool(dps) and all(p.status == "ret" and [(e.target.key() if e.target is not None else "", [a_.key() for a_ in e.args]) for e in p.events if e.kind == "call" and e.text == "register"]
+                               == [("attr:overloads(self)", r2p[:2])] for p in dps)
     res.add("labrea.dataset.Dataset.register:delegates to self.overloads.register(key, value)", ok, ds.module.relpath, r2.lineno if r2 else 0, "", nec)
     ovl = ds.methods.get("overload")
     ok = False
